@@ -367,7 +367,7 @@ class TFLiteSemantic:
             if (
                 tens.quantization
                 and tens.quantization.scale_f32 is not None
-                and np.isinf(tens.quantization.scale_f32).any()
+                and not np.isfinite(tens.quantization.scale_f32).all()
             ):
                 valid = False
                 extra.append(f"Tensor '{tens.name}' has quantization scale: {tens.quantization.scale_f32}")
